@@ -2,6 +2,7 @@
 //@ module: blob::packer
 use super::*;
 use crate::error::verif_harness as vh;
+use crate::blob::BlobLocation;
 
 //@ harness: c18_pack_size_no_overflow
 //@ prop: C18
@@ -24,4 +25,113 @@ pub(crate) fn c18_pack_size_no_overflow() {
     let s = ps.pack_size();
     kani::cover!(true, "reached");
     assert!(s <= constants::MAX_SIZE);
+}
+
+//@ harness: c18_pack_sizer_predicates
+//@ prop: C18
+//@ tier: quick
+//@ timeout: 300
+//@ kernel: PackSizer::{from_config, pack_size, size_ok, is_too_small, is_too_large, add_size}, ConfigFile::{packsize, packsize_ok_percents}
+//@ bound: all pack-size related ConfigFile fields symbolic (Option<u32> each), blob type symbolic, repository size any u64 <= 2^63, candidate pack size any u32, added size any u32; integer_sqrt unwind 34
+//@ oracle: no arithmetic overflow / panic in any predicate; target size <= configured size limit and <= MAX_SIZE; size_ok(s) == !too_small(s) && !too_large(s); a pack of exactly the target size is never too large when the upper tolerance is >= 100 % or unset
+#[kani::proof]
+#[kani::unwind(34)]
+pub(crate) fn c18_pack_sizer_predicates() {
+    let mut c = crate::repofile::ConfigFile::default();
+    fn o() -> Option<u32> { if kani::any() { Some(kani::any()) } else { None } }
+    c.treepack_size = o(); c.treepack_growfactor = o(); c.treepack_size_limit = o();
+    c.datapack_size = o(); c.datapack_growfactor = o(); c.datapack_size_limit = o();
+    c.min_packsize_tolerate_percent = o(); c.max_packsize_tolerate_percent = o();
+    let bt = if kani::any() { BlobType::Tree } else { BlobType::Data };
+    let cur: u64 = kani::any();
+    kani::assume(cur <= 1 << 63);
+    let mut ps = PackSizer::from_config(&c, bt, cur);
+    let target = ps.pack_size();
+    let (_, _, lim) = c.packsize(bt);
+    assert!(target <= lim && target <= constants::MAX_SIZE);
+    let cand: u32 = kani::any();
+    let (small, large) = (ps.is_too_small(cand), ps.is_too_large(cand));
+    assert!(ps.size_ok(cand) == (!small && !large));
+    if c.max_packsize_tolerate_percent.map_or(true, |p| p == 0 || p >= 100) { assert!(!ps.is_too_large(target)); }
+    if c.min_packsize_tolerate_percent.map_or(true, |p| p <= 100) { assert!(!ps.is_too_small(target)); }
+    ps.add_size(kani::any());
+    let _ = ps.pack_size();
+    kani::cover!(small, "a candidate is too small");
+    kani::cover!(large, "a candidate is too large");
+}
+
+fn bid(b: u8) -> BlobId { BlobId::from(vh::mk_id(b)) }
+
+//@ harness: c08_packer_accounting
+//@ prop: C08 C07
+//@ tier: quick
+//@ timeout: 1200
+//@ mem: 12
+//@ kernel: BasicPacker::{new, add_raw, write_data, has, is_empty, write_header, take_data}, IndexPack::{add, pack_size}, PackHeaderRef::{from_index_pack, size, pack_size}, HeaderEntry::{from_blob, length}, PackSizer::add_size
+//@ bound: two add_raw calls with blobs of 3 and 2 symbolic bytes (leaked static Bytes), blob ids symbolic in a 3-element domain (so "already in this pack" occurs), symbolic uncompressed lengths; then write_header with a header of the computed size (36 or 73/77/81 bytes, symbolic content) and take_data; unwind 84
+//@ oracle: the index lists the blobs in insertion order at contiguous offsets from 0 with the data's lengths; the pack bytes at [offset, offset+length) are exactly the data added; an id already in the open pack adds nothing; write_header appends the header and then the 4 bytes the length encoder returns; IndexPack::pack_size() == number of bytes in the file when the header has PackHeaderRef::size() bytes; take_data resets size and count and returns exactly file and index
+//@ stub: PackHeaderLength::to_binary -> arbitrary 4 bytes (binrw out of reach, DESIGN C08); SystemTime::now; Backtrace::capture; fmt::format
+//@ assume: blobs are non-empty
+//@ outside: the binrw byte encoding of header entries and of the length field; which bytes the threaded Actor hashes and writes; repair_index
+#[kani::proof]
+#[kani::unwind(84)]
+#[kani::stub(std::time::SystemTime::now, crate::error::verif_harness::stub_systime_now)]
+#[kani::stub(std::backtrace::Backtrace::capture, crate::error::verif_harness::stub_backtrace_capture)]
+#[kani::stub(alloc::fmt::format, crate::error::verif_harness::stub_format)]
+#[kani::stub(crate::repofile::packfile::PackHeaderLength::to_binary, crate::repofile::packfile::verif_harness::stub_len_to_binary)]
+pub(crate) fn c08_packer_accounting() {
+    let mut p = BasicPacker::new(if kani::any() { BlobType::Data } else { BlobType::Tree }, PackSizer::fixed(kani::any()));
+    assert!(p.is_empty());
+    let d0: &'static mut [u8; 3] = Box::leak(Box::new(kani::any()));
+    let d1: &'static mut [u8; 2] = Box::leak(Box::new(kani::any()));
+    let (i0, i1): (u8, u8) = (kani::any(), kani::any());
+    kani::assume(i0 < 3 && i1 < 3);
+    let (u0, u1): (u32, u32) = (kani::any(), kani::any());
+    let r0 = p.add_raw(Bytes::from_static(&*d0), &bid(i0), 3, NonZeroU32::new(u0));
+    assert!(r0.is_ok()); std::mem::forget(r0);
+    let r1 = p.add_raw(Bytes::from_static(&*d1), &bid(i1), 2, NonZeroU32::new(u1));
+    assert!(r1.is_ok()); std::mem::forget(r1);
+    let dup = i0 == i1;
+    {
+        let blobs = &p.index.blobs;
+        assert!(blobs[0].id == bid(i0) && blobs[0].tpe == p.blob_type);
+        assert!(blobs[0].location == BlobLocation { offset: 0, length: 3, uncompressed_length: NonZeroU32::new(u0) });
+        if dup {
+            assert!(blobs.len() == 1 && p.size == 3 && p.count == 1);
+            assert!(p.file.slice().len() == 1);
+        } else {
+            assert!(blobs.len() == 2 && p.size == 5 && p.count == 2);
+            assert!(blobs[1].id == bid(i1) && blobs[1].tpe == p.blob_type);
+            assert!(blobs[1].location == BlobLocation { offset: 3, length: 2, uncompressed_length: NonZeroU32::new(u1) });
+            // pack bytes at the indexed offsets are the data added
+            let f = p.file.slice();
+            assert!(f.len() == 2 && f[0].len() == 3 && f[1].len() == 2);
+            assert!(f[0][0] == d0[0] && f[0][1] == d0[1] && f[0][2] == d0[2] && f[1][0] == d1[0] && f[1][1] == d1[1]);
+        }
+        assert!(p.has(&bid(i0)) && p.has(&bid(i1)));
+        assert!(!p.is_empty());
+    }
+    // header of exactly the size the index implies (content symbolic: stands for the encrypted header)
+    let hsize = PackHeaderRef::from_index_pack(&p.index).size() as usize;
+    let e0 = if u0 == 0 { 37 } else { 41 };
+    let e1 = if u1 == 0 { 37 } else { 41 };
+    assert!(hsize == 32 + e0 + if dup { 0 } else { e1 });
+    let hbuf: &'static mut [u8; 114] = Box::leak(Box::new(kani::any()));
+    let before = p.size;
+    let r = p.write_header(Bytes::from_static(&hbuf[..hsize]));
+    assert!(r.is_ok()); std::mem::forget(r);
+    assert!(p.size as usize == before as usize + hsize + 4);
+    // the index' idea of the pack size is the number of bytes in the file
+    assert!(p.index.pack_size() == p.size);
+    assert!(p.file.size() == p.size as usize);
+    let nparts = p.file.slice().len();
+    assert!(p.file.slice()[nparts - 1].len() == 4 && p.file.slice()[nparts - 2].len() == hsize);
+    let total = p.size;
+    let (file, index) = p.take_data();
+    assert!(p.size == 0 && p.count == 0 && p.is_empty() && p.index.blobs.is_empty() && p.file.size() == 0);
+    assert!(file.size() == total as usize && index.blobs.len() == if dup { 1 } else { 2 });
+    assert!(p.pack_sizer.current_size == u64::from(total));
+    kani::cover!(dup, "second blob already in the open pack");
+    kani::cover!(!dup && u0 != 0 && u1 == 0, "mixed compressed / uncompressed entries");
+    std::mem::forget(file); std::mem::forget(index); std::mem::forget(p);
 }
